@@ -31,6 +31,8 @@ type drvLit struct {
 	fields map[string]ssa.Value
 	fn     *ssa.Function
 	pos    string
+	tname  string // name of the package-level variable holding the table ("" for a local one)
+	idx    int64
 }
 
 type drvTable struct {
@@ -119,6 +121,31 @@ func (d *driver) findTables() {
 				if _, isAlloc := arr.(*ssa.Alloc); !ok || idx.Value == nil || !isAlloc {
 					return
 				}
+				if pl, isPtrLit := stripIdentity(st.Val).(*ssa.Alloc); isPtrLit && pl.Referrers() != nil {
+					// a table of pointers to records: arr[i] = &T{...}
+					if pt, ok := pl.Type().(*types.Pointer); ok {
+						if _, isStruct := pt.Elem().Underlying().(*types.Struct); isStruct {
+							t := d.tables[arr]
+							if t == nil {
+								t = &drvTable{lits: map[int64]*drvLit{}}
+								d.tables[arr] = t
+							}
+							l := &drvLit{fields: map[string]ssa.Value{}, fn: f, pos: d.w.instrPos(ins), idx: idx.Int64()}
+							t.lits[idx.Int64()] = l
+							for _, ref := range *pl.Referrers() {
+								if fa, ok := ref.(*ssa.FieldAddr); ok && fa.Referrers() != nil {
+									_, fname, _, _ := fieldOf(fa)
+									for _, r2 := range *fa.Referrers() {
+										if s2, ok := r2.(*ssa.Store); ok && s2.Addr == ssa.Value(fa) {
+											l.fields[fname] = s2.Val
+										}
+									}
+								}
+							}
+							return
+						}
+					}
+				}
 				ld, ok := stripIdentity(st.Val).(*ssa.UnOp)
 				if !ok || ld.Op != token.MUL {
 					// a table of plain values (e.g. the ordered list of output keys): the element is its own only "field"
@@ -158,6 +185,9 @@ func (d *driver) findTables() {
 				if sl, ok := stripIdentity(st.Val).(*ssa.Slice); ok {
 					if t := d.tables[stripIdentity(sl.X)]; t != nil {
 						d.tables[a] = t
+						for i, l := range t.lits {
+							l.tname, l.idx = a.Name(), i
+						}
 					}
 				}
 			}
@@ -171,6 +201,9 @@ func (d *driver) findTables() {
 					if sl, ok := stripIdentity(st.Val).(*ssa.Slice); ok {
 						if t := d.tables[stripIdentity(sl.X)]; t != nil {
 							d.tables[g] = t
+							for i, l := range t.lits {
+								l.tname, l.idx = g.Name(), i
+							}
 						}
 					}
 				}
@@ -336,8 +369,26 @@ func (d *driver) eval(v ssa.Value, e *drvEnv, depth int) symv {
 		out := symv{Kind: "maplit", Map: map[string]symv{}}
 		for _, ref := range *x.Referrers() {
 			if mu, ok := ref.(*ssa.MapUpdate); ok {
+				d.saw = nil
 				k := d.eval(mu.Key, e, depth+1)
 				if k.Kind != "str" {
+					// filled in a loop over a table: one entry per table element
+					if t := d.saw; t != nil && e.lit == nil {
+						d.saw = nil
+						okAll := true
+						for _, l := range t.lits {
+							le := d.withLit(e, t, l)
+							kk := d.eval(mu.Key, le, depth+1)
+							if kk.Kind != "str" {
+								okAll = false
+								break
+							}
+							out.Map[kk.S] = d.eval(mu.Value, le, depth+1)
+						}
+						if okAll {
+							continue
+						}
+					}
 					return unknown("map literal with a computed key")
 				}
 				out.Map[k.S] = d.eval(mu.Value, e, depth+1)
@@ -414,6 +465,14 @@ func (d *driver) eval(v ssa.Value, e *drvEnv, depth int) symv {
 			tn, f, _, _ := fieldOf(a)
 			if tn == "BinaryModel" {
 				return symv{Kind: "modelfield", S: f}
+			}
+			// a member of the current table element reached through a pointer (a table of *T, an element handed to a helper)
+			if base := d.eval(a.X, e, depth+1); base.Kind == "elem" {
+				return d.evalLitField(f, e, depth)
+			} else if base.Kind == "struct" {
+				if v, ok := base.Map[f]; ok {
+					return v
+				}
 			}
 			// a member of a package-level record (flag variables grouped in a struct), possibly through a pointer receiver
 			if base := d.eval(a.X, e, depth+1); base.Kind == "addr" {
@@ -581,6 +640,10 @@ func (d *driver) evalLitField(f string, e *drvEnv, depth int) symv {
 	}
 	v, ok := e.lit.fields[f]
 	if !ok {
+		if e.lit.tname != "" {
+			// a member the literal leaves at its zero value: a variable of its own (e.g. the target of a flag registration)
+			return symv{Kind: "flagvar", S: fmt.Sprintf("%s[%d].%s", e.lit.tname, e.lit.idx, f)}
+		}
 		return unknown("field " + f + " not set in the table entry")
 	}
 	// the literal's values live in the function that built the table; that function's own parameters are Compile's (or none)
